@@ -26,7 +26,7 @@ TInit == /\ \E k \in 1..Len(Trace) : IsReset(k) /\ i = k + 1 /\ InitWith(ShapeBy
 TEvent == /\ i <= Len(Trace) /\ ~IsReset(i)
           /\ Next /\ last' = <<Trace[i].g, Trace[i].p>>
           /\ i' = i + 1 /\ Reach(i + 1)
-          \* at the return of Run: did main observe the cancellation on this path (Dev_WaitSwallowsCancel)?
+          \* at the return of Run: where did main observe the cancellation on this path (Dev_TrapSwallowsCancel)?
           /\ (Trace[i].p = "return") => PrintT(<<"RET", ToJson([pos |-> i, seen |-> seen', cancelled |-> cancelled])>>)
 TSilent == Next /\ last'[2] = "silent" /\ i' = i
 TNext == TEvent \/ TSilent
